@@ -206,6 +206,19 @@ def fam_configuration(ck, sc, i):
             if 'privkey' in c_[au]:
                 body = ''.join(c_[au]['privkey'].strip().splitlines()[1:-1])
                 secrets[body[40:72].encode()] = 'private-key'
+    if i % 5 == 2:
+        # what a YAML loader makes of a secret written without quotes: an integer, a float, a date, a boolean-free list, binary. Accepted or refused,
+        # the text form of that value is the secret of the file
+        import datetime
+        c_ = rng.choice(list(conf.values()))
+        au = rng.choice(['my_auth', 'peer_auth'])
+        v_ = rng.choice([rng.randrange(10 ** 9, 10 ** 12), rng.randrange(10 ** 7, 10 ** 9) + 0.25, datetime.date(2000 + rng.randrange(99), 1 + rng.randrange(12), 1 + rng.randrange(28)),
+                         bytes(rng.randrange(33, 127) for _ in range(16)), [rng.randrange(10 ** 9, 10 ** 12)]])
+        c_[au].pop('privkey', None)
+        c_[au].pop('pubkey', None)
+        c_[au]['psk'] = v_
+        secrets[v_ if isinstance(v_, bytes) else str(v_[0] if isinstance(v_, list) else v_).encode()] = 'psk'
+        ck.count('configuration.secret_that_yaml_read_as_a_non_string')
     c19.mutate(rng, conf)
     if i % 3 == 0:
         # a broken value in the LAST connection: everything before it (secrets included) has been read by then
@@ -238,7 +251,9 @@ def fam_configuration_file(ck, sc, i):
     psk_a = rng.choice(['c0rrect-h0rse: battery-staple-%d', 'tab\there-%d', '%d: [unbalanced', 'p@ss {w0rd-%d', "it's-a-secret-%d", '"half-quoted-%d', '- dash-first-%d', '? question-%d', 'plain-secret-%d', '%d & anchor *alias']) % rng.randrange(10 ** 6)
     psk_b = 'other-side-secret-%d' % rng.randrange(10 ** 6)
     kind = ['unquoted-secret', 'bad-indentation-after-the-secret', 'tab-indentation', 'unterminated-quote-before-the-secret', 'duplicate-anchor', 'bad-value-elsewhere', 'unknown-algorithm',
-            'secret-line-truncated'][i % 8]
+            'secret-line-truncated', 'unquoted-numeric-secret'][i % 9]
+    if kind == 'unquoted-numeric-secret':
+        psk_a = str(rng.randrange(10 ** 9, 10 ** 12))
     secret_line = f'    psk: {psk_a}'
     if kind in ('bad-value-elsewhere', 'unknown-algorithm', 'bad-indentation-after-the-secret', 'tab-indentation', 'unterminated-quote-before-the-secret', 'duplicate-anchor'):
         secret_line = f'    psk: "{psk_a.replace(chr(92), chr(92) * 2).replace(chr(34), chr(92) + chr(34)).replace(chr(9), " ")}"'
@@ -318,5 +333,6 @@ def verdict(ck):
         ck.floor(f'histories of family {f}', c[f'histories.{f}'], 20)
     ck.floor('daemon start-ups on a file that must be refused, ended with an ERROR record', c['configuration_file.refused_with_an_error_record'], 30)
     ck.floor('configurations rejected with secrets in the file', c['configuration.rejected'], 100)
+    ck.floor('configurations whose secret was read by YAML as a number, a date or binary', c['configuration.secret_that_yaml_read_as_a_non_string'], 20)
     ck.floor('distinct record templates seen', len(ck.sets['scan.templates']), 40)
     return None
